@@ -25,7 +25,8 @@ EXPLANATION = (
     " (R10) dual membership predicate for (dz,z), primal for (ds,s) in every nonsymmetric cone (C15.R4 re-run); (R11) backtrack_search returns zero or the alpha it has just tested (C15.R11 re-run)."
     " (R12) nonnegative-cone ratio test: component i limits the step iff its direction is < 0 exactly (no tolerance), by -z_i/dz_i (C15.R12 re-run)."
     " (R13) the previous iterate is restored only under status == InsufficientProgress itself, never on a budget termination."
-    ' R11 also: backtrack_search gives up only after a tested trial failed.')
+    ' R11 also: backtrack_search gives up only after a tested trial failed.'
+    ' (R15) = C04.R18: the centrality line search evaluates the barrier at the trial point.')
 ASSUMPTIONS = [
     'rustc MIR construction and trait resolution are correct',
     '0 <= linesearch_backtrack_step <= 1 and 0 < max_step_fraction <= 1 (settings are not validated by the crate)',
@@ -198,6 +199,7 @@ def run(ctx, rep, tier):
         steplen.backtrack_validated(rep, F, tag, 'C07.R11')
         steplen.nn_ratio_test(rep, F, tag, 'C07.R12')
         rollback_only_on_stall(rep, F, tag)
+        steplen.barrier_trial_points(rep, F, tag, 'C07.R15')
         from . import c04 as _c04b
         c14.membership_definitions(_c04b._Ren(rep, 'C14.R14', 'C07.R14'), F, E, tag)
     # a run limited to max_iter = k is a prefix of a longer run also on a re-used solver object: every solve starts from scratch
